@@ -22,7 +22,7 @@ for _p in sorted(glob.glob(os.path.join(os.path.dirname(os.path.abspath(__file__
 
 # Properties whose model builds or reads nodes depend on the leaf functions that tools/rustfun.py translates
 # from the source on every run; coq/SrcFunTie.v (tie lemmas, proved for all inputs) is one of their obligations.
-SRCFUN_TIE_PROPS = "C01 C02 C03 C04 C05 C06 C07 C08 C09 C10 C11 C12 C13 C15 C16 C18 C20".split()
+SRCFUN_TIE_PROPS = "C01 C02 C03 C04 C05 C06 C07 C08 C09 C10 C11 C12 C13 C15 C16 C17 C18 C20".split()
 for _pid in SRCFUN_TIE_PROPS:
     for _t in ("SrcFunTie.vo", "SrcFunTie2.vo"):
         if _pid in PROPS and _t not in PROPS[_pid].setdefault("coq_targets", []):
